@@ -1208,6 +1208,32 @@ func checkC14(c *CheckCtx) error {
 			c.nontrivial(sc.Note)
 		}
 	}
+	// invalid input whose malformed part is exactly what a matcher replaces: the document is judged
+	// as given, not as the matchers leave it (seeded change R6-C14-B)
+	for i, bm := range []struct{ bad, path string }{
+		{`{"id": 0123}`, "id"}, {`{"when": tru}`, "when"}, {`{"meta":{"a":1,,"b":2}}`, "meta"}, {`{"a":01,"b":2}`, "a"},
+		{`{"l":[1,],"k":1}`, "l"}, {`{"s":'x'}`, "s"}, {`{"n":+1}`, "n"}, {`{"o":{"x":1,}}`, "o"}, {`{"o":{"x":.5}}`, "o.x"},
+		{`[{"id":1.}]`, "0.id"},
+	} {
+		for _, api := range []string{"json", "sjson"} {
+			n++
+			sc := &Scenario{ID: fmt.Sprintf("jm%d", n), Configs: stdConfigs(), Program: []string{"TestA"}}
+			v := strVal(bm.bad)
+			if i%2 == 1 {
+				v = bytesVal(bm.bad)
+			}
+			m := &Matcher{M: "any", Paths: []string{bm.path}}
+			if i%3 == 2 {
+				m.EOMP = bp(false)
+			}
+			sc.Procs = append(sc.Procs, &Proc{Spec: procSpec([]string{"default", "update", "ci"}[i%3]), Steps: []*Step{{Op: "begin", Name: "TestA"},
+				{Op: "match", Name: "TestA", API: api, Cfg: "c", Val: v, Matchers: []*Matcher{m}, X: &Expect{Invalid: true}},
+				{Op: "match", Name: "TestA", API: api, Cfg: "c", Val: strVal(`{"ok":true}`)}, {Op: "end", Name: "TestA"}}})
+			sc.Note = fmt.Sprintf("invalid JSON %q via %s with match.Any(%q) covering the malformed part", bm.bad, api, bm.path)
+			scs = append(scs, sc)
+			c.nontrivial(sc.Note)
+		}
+	}
 	c.sample(map[string]any{"document": jsonCorpus[14], "presentations": []string{respace(jsonCorpus[14])}})
 	scs = append(scs, jsonNearMiss(c)...)
 	scs = append(scs, hugeDoc()...)
